@@ -8,7 +8,7 @@ from hypothesis import strategies as st
 
 from .. import gen, model
 from ..core import SKIP, Sub
-from ..util import NAN, arr, compare, flags, tarr
+from ..util import carr, NAN, arr, compare, flags, tarr
 
 ID = "C10"
 RULE = ("rate_of_change_test: dyadic series with missing on strictly increasing whole-second axes (regular/irregular, 1 s.."
@@ -98,7 +98,7 @@ def check_roc(case, rec):
         labels.append("has_missing")
     rec.note((irregular and flagged) or on, labels)
     site = "qartod.rate_of_change_test"
-    got = flags(rec, site, rec.call(site, _roc(), arr(x), times(t, case["tc"]), thr), len(x))
+    got = flags(rec, site, rec.call(site, _roc(), carr(case, x), times(t, case["tc"]), thr), len(x))
     if got is SKIP:
         return
     compare(rec, site, got, allowed)
@@ -130,7 +130,7 @@ lat_s = st.one_of(gen.dyadic(3, -90, 90), st.sampled_from([-90.0, 90.0, 89.875, 
 def track(draw, n):
     lon, lat = [], []
     for i in range(n):
-        how = draw(st.sampled_from(["free", "near", "near", "same"])) if i else "free"
+        how = draw(st.sampled_from(["free", "near", "near", "same", "micro"])) if i else "free"
         if how == "free":
             lon.append(draw(lon_s))
             lat.append(draw(lat_s))
@@ -138,8 +138,9 @@ def track(draw, n):
             lon.append(lon[-1])
             lat.append(lat[-1])
         else:
-            dl = draw(st.integers(-64, 64)) / 1024
-            db = draw(st.integers(-64, 64)) / 1024
+            scale = 1024 if how == "near" else 2 ** 20  # micro: hops of a few decimetres to metres
+            dl = draw(st.integers(-64, 64)) / scale
+            db = draw(st.integers(-64, 64)) / scale
             lo = lon[-1] + dl
             if lo > 180:
                 lo -= 360
@@ -211,7 +212,7 @@ def check_speed(case, rec):
         labels.append("missing_position")
     rec.note(on or swap or (irregular and flagged), labels)
     site = "argo.speed_test"
-    got = flags(rec, site, rec.call(site, _speed(), arr(lon), arr(lat), times(t, case["tc"]), s, f), len(lon))
+    got = flags(rec, site, rec.call(site, _speed(), carr(case, lon), carr(case, lat), times(t, case["tc"]), s, f), len(lon))
     if got is SKIP:
         return
     compare(rec, site, got, allowed)
@@ -240,9 +241,9 @@ def check_speed_mismatch(case, rec):
 
 
 SUBS = [
-    Sub("roc", roc_case, check_roc, quick=4000, thorough=80000),
+    Sub("roc", lambda tier: gen.with_carrier(roc_case(tier)), check_roc, quick=4000, thorough=80000),
     Sub("roc_mismatch", roc_mismatch_case, check_roc_mismatch, quick=400, thorough=5000, quick_shards=1),
-    Sub("speed", speed_case, check_speed, quick=2500, thorough=40000),
+    Sub("speed", lambda tier: gen.with_carrier(speed_case(tier)), check_speed, quick=2500, thorough=40000),
     Sub("speed_mismatch", speed_mismatch_case, check_speed_mismatch, quick=300, thorough=3000, quick_shards=1),
 ]
 REQUIRED_CLASSES = ["roc:rate_on_threshold", "roc:irregular", "speed:speed_on_threshold", "speed:latlon_swap_matters",
